@@ -366,27 +366,43 @@ impl ToLatex for IterableKind {
 impl fmt::Display for IterableKind {
     fn fmt(&self, f: &mut fmt::Formatter<'_>) -> fmt::Result {
         //TODO should i turn this into a self.to_primitive_set()  and then iterate and stringify?
+        // a number keeps its decimal point (it is what makes the array one of
+        // numbers) and is never written with an exponent, which the grammar
+        // does not read
+        fn number_literal(n: &f64) -> String {
+            let plain = n.to_string();
+            if n.is_finite() && !plain.contains('.') {
+                format!("{}.0", plain)
+            } else {
+                plain
+            }
+        }
+        fn list(items: impl Iterator<Item = String>) -> String {
+            format!("[{}]", items.collect::<Vec<_>>().join(", "))
+        }
         let s = match self {
-            IterableKind::Numbers(v) => format!("{:?}", v),
+            IterableKind::Numbers(v) => list(v.iter().map(number_literal)),
             IterableKind::Integers(v) => format!("{:?}", v),
             // a mixed array lists its elements the way each is written as a literal
             IterableKind::Anys(v) => format!(
                 "[{}]",
                 v.iter()
                     .map(|p| match p {
-                        Primitive::Number(n) => format!("{:?}", n),
+                        Primitive::Number(n) => number_literal(n),
                         other => other.to_string(),
                     })
                     .collect::<Vec<_>>()
                     .join(", ")
             ),
             IterableKind::PositiveIntegers(v) => format!("{:?}", v),
-            IterableKind::Strings(v) => format!("{:?}", v),
+            // a string is written the way a scalar string is: its text between
+            // quotes, without escaping it a second time
+            IterableKind::Strings(v) => list(v.iter().map(|s| format!("\"{}\"", s))),
+            IterableKind::Graphs(v) => list(v.iter().map(|g| g.to_string())),
             IterableKind::Edges(v) => format!("{:?}", v),
             IterableKind::Nodes(v) => format!("{:?}", v),
             IterableKind::Tuples(v) => format!("{:?}", v),
             IterableKind::Booleans(v) => format!("{:?}", v),
-            IterableKind::Graphs(v) => format!("{:?}", v),
             IterableKind::Iterables(v) => {
                 let result = v
                     .iter()
